@@ -14,9 +14,11 @@ import (
 
 func rewriteMetadata(p string, stat *types.Stat) error {
 	for key, value := range stat.Xattrs {
-		if err := sysx.LSetxattr(p, key, value, 0); err != nil && os.IsPermission(err) && os.FileMode(stat.Mode)&os.ModeSymlink == 0 {
+		if err := sysx.LSetxattr(p, key, value, 0); err != nil && os.IsPermission(err) && os.FileMode(stat.Mode)&os.ModeSymlink == 0 && stat.Linkname == "" {
 			// retry after chmod: the owner of a read-only entry may not
-			// set user xattrs on it; the final mode is applied below
+			// set user xattrs on it; the final mode is applied below.
+			// Hard links are left alone: the inode already got its xattrs
+			// through its first name and its content may still be written.
 			if er := os.Chmod(p, os.FileMode(stat.Mode)|0200); er == nil {
 				sysx.LSetxattr(p, key, value, 0)
 			}
